@@ -1,5 +1,7 @@
 package main
 
+import hook "github.com/pion/rtcp/zz_simhook"
+
 // Run specifications: explicit, JSON-serialisable straight-line programs.
 //
 // A run is a Kahn process network: every task executes a fixed list of
@@ -559,6 +561,10 @@ func genSchedConfig(r *rng, n int, estLen uint64, opOnly bool, tier string) Sche
 	}
 	if r.chance(6) {
 		c.GCRate = uint64(200 + r.intn(3000))
+	}
+	if hook.ClockSites > 0 && r.chance(2) {
+		// the tree reads the clock: half of the runs see it jump (clock-jump fault), the others see it creep
+		c.ClockRate = []uint32{20, 200, 2000, 20000}[r.intn(4)]
 	}
 	c.StepCap = 300000
 	return c
